@@ -75,7 +75,9 @@ TInit == /\ tid \in 1..Len(Traces) /\ l = 1
          /\ arch = Traces[tid].ev[1].pre
          /\ act = [m |-> "init", applied |-> "init", args |-> [l |-> 0, k |-> 0, s |-> 0]]
 TStep == /\ l <= Len(T.ev)
-         /\ IF T.cfg.prop = "C03" THEN C03Clauses ELSE IF C04Skip THEN TRUE ELSE C04Clauses
+         /\ IF T.cfg.prop = "C03" THEN C03Clauses
+            ELSE IF Ev.clone_failed THEN Check("the clone reproduces the outputs bit-exactly", FALSE)   \* clone() itself failed
+            ELSE IF C04Skip THEN TRUE ELSE C04Clauses
          /\ arch' = Ev.post
          /\ act' = [m |-> Ev.m, applied |-> Ev.applied, args |-> [l |-> 0, k |-> 0, s |-> 0]]
          /\ l' = l + 1 /\ UNCHANGED tid
